@@ -237,7 +237,7 @@ func main() {
 				for i, bk := range b.Buckets("ranges") {
 					mx := bk.Metric("max1")
 					e := map[string]any{"lo": bounds[i][0], "hi": bounds[i][1], "count": int(bk.Metric("count")), "sum2": int(math.Round(bk.Metric("sum2"))),
-						"sum3": int(math.Round(bk.Metric("sum3"))),
+						"sum3":     int(math.Round(bk.Metric("sum3"))),
 						"max1none": math.IsInf(mx, 0), "max1": 0}
 					if !math.IsInf(mx, 0) {
 						e["max1"] = int(mx)
